@@ -46,6 +46,20 @@ CHECKS = {
              "Known findings D13, D15 are excused only on the exact trigger/clause recorded in known_findings.json.",
         technique="TLA+ model checking (TLC) of Wrap.tla + spec->code replay + batch trace validation (WrapTrace.tla)",
         design="§6 C05"),
+    "C07": dict(
+        level="model_checking",
+        text="spec/Frontmatter.tla models a text as pieces (blank / --- / yaml / markdown) separated by LF, CRLF or a character that "
+             "str.splitlines() splits on but that is not a line end (CR, VT, FF, FS, GS, RS, NEL, LS, PS), gives the reference reading (only "
+             "LF/CRLF end lines; first --- to next ---; unclosed = the whole text) and split_frontmatter as a machine parameterised by the "
+             "line splitter; TLC checks FmExact and BodyIndependent for every text up to the bound (and that the splitlines() splitter "
+             "violates them). Every text is concretised with rotating piece texts and separator characters and observed through the public "
+             "split_frontmatter and reformat_text under 3 option sets; spec/FmTrace.tla validates the classification against the machine "
+             "and evaluates: block reproduced character for character (CRLF -> LF), output = block + format(body alone), unclosed = "
+             "unchanged and a fixed point.",
+        note="Piece texts are fixed representatives of their class. Bodies that themselves start with a --- line are discarded (the "
+             "equation format(fm+body) = fm + format(body) is undefined for them).",
+        technique="TLA+ model checking (TLC) of Frontmatter.tla + exhaustive replay + trace validation (FmTrace.tla)",
+        design="§6 C07, §12"),
     "C11": dict(
         level="model_checking",
         text="TLC explores every behaviour of spec/SentenceWrap.tla (one action per sentence of line_wrap_by_sentence, inner greedy "
